@@ -114,6 +114,9 @@ type Explorer struct {
 	// Target records a hit; the path continues unless StopAtTarget.
 	Target       func(in ssa.Instruction, st *State) bool
 	StopAtTarget bool
+	// Init, when set, is the path state to resume from (a Hit.St of an
+	// earlier run that stopped at From).
+	Init *State
 	// MaxStates bounds the search; exceeding it sets Exhausted.
 	MaxStates int
 
@@ -775,6 +778,9 @@ func (x *Explorer) Run() []Hit {
 		return nil
 	}
 	st0 := newState()
+	if x.Init != nil {
+		st0 = x.Init.clone()
+	}
 	st0.pin = map[string]bool{}
 	x.pinned = st0.pin
 	x.valPin = map[string]bool{}
@@ -1216,6 +1222,16 @@ func (x *Explorer) shouldTrack(base string, cond ssa.Value) bool {
 		return false
 	}
 	if x.Track != nil && x.Track(base) {
+		return true
+	}
+	// a plain boolean register (phi, extract, call result) tested twice
+	// must answer the same both times
+	if len(regsOf(base)) == 1 && !strings.ContainsAny(base, "*^(") {
+		return true
+	}
+	// pure observers (fi.IsDir(), fi.Mode() tests ...) answer the same on
+	// every evaluation: remember the first answer
+	if strings.HasPrefix(base, "pure:") || strings.HasPrefix(base, "(pure:") || strings.HasPrefix(base, "((pure:") {
 		return true
 	}
 	// error nil tests
